@@ -334,6 +334,9 @@ pub fn main(a: &[String]) {
     if prop == "C16" {
         lazy_adaptors(&mut o);
     }
+    if prop == "C13" {
+        zst_drops(&mut o);
+    }
     let json = format!(
         "{{\"prop\":\"{}\",\"seed\":{},\"n\":0,\"cases_count\":{},\"cases\":[{}],\"sample\":[{}],\"violations\":[{}],\"wall_s\":{:.2}}}",
         prop,
@@ -616,6 +619,78 @@ fn lazy_adaptors(o: &mut Out) {
                 variant,
                 foreign.load(Relaxed)
             ));
+        }
+    }
+}
+
+/// C13 for an element type the instrumented table cannot have: a zero-sized type with a destructor.  Every value the
+/// pipeline creates must be dropped exactly once by the time the result is dropped (created == dropped, counted in
+/// statics because a zero-sized value cannot carry an id).
+fn zst_drops(o: &mut Out) {
+    use std::sync::atomic::{AtomicU64, Ordering::Relaxed};
+    static CREATED: AtomicU64 = AtomicU64::new(0);
+    static DROPPED: AtomicU64 = AtomicU64::new(0);
+    struct Token;
+    impl Token {
+        fn new() -> Token {
+            CREATED.fetch_add(1, Relaxed);
+            Token
+        }
+    }
+    impl Drop for Token {
+        fn drop(&mut self) {
+            DROPPED.fetch_add(1, Relaxed);
+        }
+    }
+    let mut check = |o: &mut Out, label: &str, n: usize, nt: usize, f: &dyn Fn(usize, usize)| {
+        CREATED.store(0, Relaxed);
+        DROPPED.store(0, Relaxed);
+        f(n, nt);
+        o.cases += 1;
+        o.kinds.insert(format!("zero-sized Drop type / {}", label));
+        let (c, d) = (CREATED.load(Relaxed), DROPPED.load(Relaxed));
+        if c != d {
+            o.violations.push(format!(
+                "zero-sized element type with a destructor, {} ({} elements, nt={}): {} values were created and {} dropped",
+                label, n, nt, c, d
+            ));
+        }
+    };
+    for &n in &[1usize, 2, 7, 64, 300] {
+        for &nt in &[1usize, 2, 5] {
+            check(o, "range.map.collect_vec", n, nt, &|n, nt| {
+                let v = (0..n).into_par().num_threads(nt).chunk_size(3).map(|_| Token::new()).collect_vec();
+                assert_eq!(v.len(), n);
+            });
+            check(o, "vec.map.collect_into(Vec with previous contents)", n, nt, &|n, nt| {
+                let prev: Vec<Token> = (0..3).map(|_| Token::new()).collect();
+                let v = (0..n).collect::<Vec<_>>().into_par().num_threads(nt).map(|_| Token::new()).collect_into(prev);
+                assert_eq!(v.len(), n + 3);
+            });
+            check(o, "slice.map.collect_into(FixedVec)", n, nt, &|n, nt| {
+                let data: Vec<usize> = (0..n).collect();
+                let v = data.par().num_threads(nt).chunk_size(2).map(|_| Token::new()).collect_into(FixedVec::new(0));
+                assert_eq!(v.len(), n);
+            });
+            check(o, "range.map.filter.collect_vec", n, nt, &|n, nt| {
+                let v = (0..n).into_par().num_threads(nt).map(|_| Token::new()).filter(|_| true).collect_vec();
+                assert_eq!(v.len(), n);
+            });
+            check(o, "range.map.count / for_each / reduce", n, nt, &|n, nt| {
+                let c = (0..n).into_par().num_threads(nt).map(|_| Token::new()).count();
+                assert_eq!(c, n);
+                (0..n).into_par().num_threads(nt).map(|_| Token::new()).for_each(|t| drop(t));
+                let _ = (0..n).into_par().num_threads(nt).chunk_size(2).map(|_| Token::new()).reduce(|a, b| {
+                    drop(b);
+                    a
+                });
+            });
+            check(o, "vec-of-tokens.into_par().first / find", n, nt, &|n, nt| {
+                let src: Vec<Token> = (0..n).map(|_| Token::new()).collect();
+                let _ = src.into_par().num_threads(nt).chunk_size(2).first();
+                let src: Vec<Token> = (0..n).map(|_| Token::new()).collect();
+                let _ = src.into_par().num_threads(nt).map(|t| t).find(|_| false);
+            });
         }
     }
 }
